@@ -72,6 +72,17 @@ def cases(tier: str, seed: int) -> List[Dict[str, Any]]:
                 out.append({"family": fam, "unit_scale": us, "fmt": fmt, "final": final, "seed": seed, "freeze": True})
                 if len(([1] if us else []) + ([1] if fmt else []) + ([1] if final else [])) >= 2:
                     out.append({"family": fam, "unit_scale": us, "fmt": fmt, "final": final, "seed": seed, "train_between": True})
+        # object history: the module handed to the chain (and every called intermediate) already holds gradients
+        for us in (False, True):
+            if us and fam == "unit_layers":
+                continue
+            out.append({"family": fam, "unit_scale": us, "fmt": "e5m2rn", "final": None, "seed": seed, "with_grads": True})
+        # call history: the transformed module first receives a call that RAISES (wrong feature size), then normal calls
+        for us in (False, True):
+            if us and fam == "unit_layers":
+                continue
+            for fmt, final in (("e5m2rn", None), (None, "track") if us else ("fp8", "track")):
+                out.append({"family": fam, "unit_scale": us, "fmt": fmt, "final": final, "seed": seed, "failed_call": True})
         # dtype coordinate: a float64 / bfloat16 module (transforms copy first and never convert the module given)
         for dt_ in ("float64", "bfloat16"):
             for us in (False, True):
@@ -123,7 +134,7 @@ def run_case(case: Dict[str, Any]) -> Dict[str, Any]:
     if case.get("dtype"):
         prog["dtype"] = case["dtype"]
     tset = (["unit_scale"] if us else []) + ([f"fmt:{fmt}"] if fmt else [])
-    ident = f"{fam}|set={'+'.join(tset) or 'none'}|final={final}" + ("|frozen_param" if case.get("freeze") else "") + (f"|dtype={case['dtype']}" if case.get("dtype") else "")
+    ident = f"{fam}|set={'+'.join(tset) or 'none'}|final={final}" + ("|frozen_param" if case.get("freeze") else "") + (f"|dtype={case['dtype']}" if case.get("dtype") else "") + ("|after_failed_call" if case.get("failed_call") else "") + ("|with_grads" if case.get("with_grads") else "")
     viol: List[Dict[str, str]] = []
     steps = 0
 
@@ -232,8 +243,15 @@ def run_case(case: Dict[str, Any]) -> Dict[str, Any]:
                 snap_out = call(copy.deepcopy(m), inp)
                 cur = m
                 mods = [m]
+                if case.get("with_grads"):
+                    call(m, inp)  # the module handed to the first transform already holds accumulated gradients
                 for i, t in enumerate(chain):
+                    g_before = [None if p.grad is None else p.grad.clone() for p in cur.parameters()]
                     nxt = apply(cur, t)
+                    g_after = [p.grad for p in cur.parameters()]
+                    if any((a is None) != (b is None) or (a is not None and not torch.equal(a, b)) for a, b in zip(g_before, g_after)):
+                        viol.append({"key": ident + "|gradients_of_the_transformed_module_changed", "msg":
+                                     f"{'>'.join(chain)}: applying '{t}' changed the .grad of the module it was given (chain position {i})"})
                     mods.append(nxt)
                     cur = nxt
                     if i < n_inter and pattern[i]:
@@ -257,6 +275,13 @@ def run_case(case: Dict[str, Any]) -> Dict[str, Any]:
                         return b(gm, ex)
                     wrapped.__qualname__ = getattr(b, "__qualname__", type(b).__name__)
                     cur.backends[bi] = wrapped
+                if case.get("failed_call"):
+                    bad = tuple(torch.randn(tuple(a.shape[:-1]) + (a.shape[-1] + 3,)) if a.is_floating_point() else a for a in inp)
+                    try:
+                        cur(*bad)
+                        viol.append({"key": ident + "|harness_bad_input_accepted", "msg": label})
+                    except Exception:  # noqa - expected: the shapes do not fit
+                        pass
                 outs = [call(cur, inp) for _ in range(3)]  # (the module decides by itself when to re-trace)
                 steps += 3
                 if any(c != 1 for c in counts):
@@ -310,7 +335,7 @@ def run_case(case: Dict[str, Any]) -> Dict[str, Any]:
                     if any(v.dtype != snap_state[k].dtype for k, v in mm.state_dict().items() if k in snap_state):
                         viol.append({"key": ident + "|parameter_dtype_changed", "msg": f"{label}: module after {i_} transform(s)"})
                         break
-                if any(p.grad is not None for p in m.parameters()):
+                if any(p.grad is not None for p in m.parameters()) and not case.get("with_grads"):
                     viol.append({"key": ident + "|gradient_sent_to_original", "msg": label})
                 d = same(call(m, inp), snap_out)
                 if d:
